@@ -85,6 +85,23 @@ def declLeavesL : List Shape → List LockId
 end
 
 mutual
+/-- The holds a successful acquisition of the shape in mode `m` consists of, in declared
+order: every leaf once; a `Mutex` is always held exclusively. -/
+def holdsOf : Shape → Mode → List (LockId × Mode)
+  | .mutex x, _ => [(x, .excl)]
+  | .rwlock x, m => [(x, m)]
+  | .seq ss, m => holdsOfL ss m
+  | .poisonable _ s, m => holdsOf s m
+  | .boxed s, m => holdsOf s m
+  | .refc s, m => holdsOf s m
+  | .retry s, m => holdsOf s m
+  | .owned _ s, m => holdsOf s m
+def holdsOfL : List Shape → Mode → List (LockId × Mode)
+  | [], _ => []
+  | s :: ss, m => holdsOf s m ++ holdsOfL ss m
+end
+
+mutual
 /-- `Sharable` is implemented (no `Mutex` leaf anywhere). -/
 def sharable : Shape → Bool
   | .mutex _ => false
